@@ -274,11 +274,10 @@ func (p *Primary) StreamWAL(
 
 	log.Info("Successfully sent session ID %s in stream header", session.ID)
 
-	// Send initial entries if starting from a specific sequence
-	if req.StartSequence > 0 {
-		if err := p.sendInitialEntries(session); err != nil {
-			return fmt.Errorf("failed to send initial entries: %w", err)
-		}
+	// Send the entries that already exist behind the requested position
+	// (start_sequence is exclusive: it is the last sequence the replica has, 0 = none)
+	if err := p.sendInitialEntries(session); err != nil {
+		return fmt.Errorf("failed to send initial entries: %w", err)
 	}
 
 	// Keep the stream alive and continue sending entries as they arrive
@@ -553,7 +552,7 @@ func (p *Primary) sendInitialEntries(session *ReplicaSession) error {
 	// 3. Implement proper error handling for missing WAL files
 
 	// For now, we'll use a placeholder implementation
-	entries, err := p.getWALEntriesFromSequence(session.StartSequence)
+	entries, err := p.getWALEntriesFromSequence(session.StartSequence + 1)
 	if err != nil {
 		return fmt.Errorf("failed to get WAL entries: %w", err)
 	}
